@@ -435,6 +435,46 @@ pub fn check(spec: &PropSpec, thorough: bool, base_seed: u64, max_runs: Option<u
         Some(t0 + budget),
         Duration::from_secs(180),
     );
+    // A run that hit a wall-clock limit (settle / start / child time-out) is not a verdict: on a loaded machine the
+    // helper threads of a node may simply not have been scheduled. Such runs are repeated alone, a few at a time, with
+    // a longer limit; only what fails again is reported as a harness error.
+    let timing = |r: &JobResult| -> bool {
+        match &r.report {
+            None => true,
+            Some(rep) => rep.harness_errors.iter().any(|e| e.contains("hung") || e.contains("HUNG") || e.contains("Settle") || e.contains("Hung") || e.ends_with(": Run")),
+        }
+    };
+    let mut results = results;
+    let mut retry_jobs = vec![];
+    let mut kept = vec![];
+    for r in results.drain(..) {
+        let seed_of = |label: &str| -> Option<(u64, Option<String>)> {
+            let rest = label.strip_prefix("seed ")?;
+            let mut it = rest.split(' ');
+            let s: u64 = it.next()?.parse().ok()?;
+            let eng = it.next().map(|e| e.trim_matches(|c| c == '(' || c == ')').to_string());
+            Some((s, eng))
+        };
+        if timing(&r) {
+            if let Some((s, eng)) = seed_of(&r.label) {
+                retry_jobs.push(match eng {
+                    Some(e) => Job::SeedOn(e, s),
+                    None => Job::Seed(s),
+                });
+                continue;
+            }
+        }
+        kept.push(r);
+    }
+    let n_retried = retry_jobs.len();
+    if !retry_jobs.is_empty() {
+        std::env::set_var("DSIM_HANG_S", "120");
+        // at most 200 repeats: beyond that the machine, not the run, is the problem
+        retry_jobs.truncate(200);
+        let again = run_pool(engines[0], prop, thorough, retry_jobs, workers.min(4), None, Duration::from_secs(600));
+        kept.extend(again);
+    }
+    let results = kept;
     let search_wall = t0.elapsed();
 
     // aggregate
@@ -572,6 +612,7 @@ pub fn check(spec: &PropSpec, thorough: bool, base_seed: u64, max_runs: Option<u
             "rule": spec.rule,
             "samples": samples,
             "directed_scenarios": n_directed,
+            "runs_repeated_after_a_time_limit": n_retried,
             "regression_traces": n_regress,
             "seeded_runs": seeds_run,
             "first_seed": first_seed,
